@@ -258,6 +258,7 @@ def run(ctx, rep):
     from props import cg
     # the priorities compared are the documented ones (default priorities included in the property's quantifier)
     cg.rule_complexity(rep, crate)
+    cg.rule_sites(rep, crate, want=('C09',))      # token default = 2 x byte length, regex default = Pattern::priority(), explicit overrides
     cg.rule_priority_parse(rep, crate)
     cg.rule_priority_writers(rep, crate)
     # the languages compared are the documented ones: literals are escaped by regex_syntax, subpatterns are spliced as flag-scoped groups
